@@ -153,8 +153,15 @@ class HttpWebServerPlugin(HttpProtocolHandlerPlugin):
         self.switched_protocol = httpProtocolTypes.WEBSOCKET
 
     def on_request_complete(self) -> Union[socket.socket, bool]:
-        self.emit_request_complete()
         path = self.request.path or b'/'
+        try:
+            text_(path)
+        except UnicodeDecodeError:
+            # Routes, static files and events all work with the decoded
+            # request target: one that is not valid UTF-8 matches nothing.
+            self.client.queue(NOT_FOUND_RESPONSE_PKT)
+            return True
+        self.emit_request_complete()
         teardown = self._try_route(path)
         if teardown:
             return teardown
